@@ -65,3 +65,13 @@ Example C01_recipe_nonvacuous :
     head_ok (fun _ => false) ws = true /\
     match recipe_shell_text (fun _ => []) line with Some t => sh_words (fun _ => false) t | None => None end = Some ws.
 Proof. eexists. split; [vm_compute; reflexivity|]. split; vm_compute; reflexivity. Qed.
+
+(* channel P: a path is written as <root variable reference><suffix> inside ONE pair of quotes (the reference
+   is a literal bit, so the unit is always quoted); after Make substituted the root's value the text sh sees
+   is path_text, and sh reads it back as root value ++ suffix for every suffix, provided the root value is
+   non-empty and contains no single quote *)
+Theorem C01_path_unit : forall uw rootval sfx,
+  no_sq rootval = true -> rootval <> [] ->
+  sh_words uw (path_text rootval sfx) = Some [rootval ++ sfx].
+Proof. exact path_unit_words. Qed.
+Print Assumptions C01_path_unit.
